@@ -414,6 +414,28 @@ func init() {
 		} else {
 			fail("func (*File) DeletePicture")
 		}
+		// deletion policies of object kinds (reference-closure model)
+		chartKeeps := "false"
+		if fd := funcDecl("File", "DeleteChart"); fd != nil {
+			body := src(fd.Body)
+			if !strings.Contains(body, "Pkg.Delete") && !strings.Contains(body, "deleteDrawingRels") && !strings.Contains(body, "removeContentTypesPart") &&
+				strings.Contains(body, "f.deleteDrawing(col, row, drawingXML, \"Chart\")") {
+				chartKeeps = "true"
+			}
+		} else {
+			fail("func (*File) DeleteChart")
+		}
+		fmt.Fprintf(w, "def deleteChartKeepsParts : Bool := %s\n", chartKeeps)
+		if fd := funcDecl("File", "DeleteTable"); fd != nil {
+			body := src(fd.Body)
+			for _, pat := range []string{"f.Pkg.Delete(table.tableXML)", "f.removeContentTypesPart(ContentTypeSpreadSheetMLTable", "f.deleteSheetRelationships(sheet, tbl.RID)"} {
+				if !strings.Contains(body, pat) {
+					fail("DeleteTable: skeleton `%s`", pat)
+				}
+			}
+		} else {
+			fail("func (*File) DeleteTable")
+		}
 		// the cell setters and the calculation chain
 		sstFactsLate := func(fn string, pats ...string) {
 			fd := funcDecl("File", fn)
@@ -429,7 +451,7 @@ func init() {
 			}
 		}
 		sstFactsLate("removeFormula", "if c.F != nil && c.Vm == nil {", "f.deleteCalcChain(sheetID, c.R)", "c.F = nil")
-		sstFactsLate("SetCellFormula", "if formula == \"\" {", "return f.deleteCalcChain(f.getSheetID(sheet), cell)")
+		sstFactsLate("SetCellFormula", "if formula == \"\" {", "return f.deleteCalcChain(f.getSheetID(sheet), c.R)")
 		// shared strings: how the index of a new item is computed
 		sstFacts := func(fn string, pats ...string) {
 			fd := funcDecl("File", fn)
